@@ -354,6 +354,77 @@ def rule_field_row(ctx, rule="O9.6", mode="values"):
            CID + ".add_field_format_row", cell, min_cells=500, max_report=8)
 
 
+# ------------------------------------------------------------------------------------------------- O9.6c
+def rule_check_row(ctx):
+    """
+    Check rows: a non-empty unique description, a known type (type + 'Check' in the class map), the rule handed to the
+    check's constructor together with the declared field names and the row's location; empty cells between description
+    and type are tolerated; every refusal is an InterfaceError located at the row.
+    """
+    model = ctx.model
+    ctx.res.minimum("O9.6c", 1)
+
+    def cell(ch):
+        description = ch.choose("description", ["must be unique", ""])
+        check_type = ch.choose("type", ["IsUnique", "isunique", "Unknown", ""])
+        padding = ch.choose("empty cells before the type", [0, 1, 2])
+        duplicate = ch.choose("description used before", [False, True])
+        construction = ch.choose("construction", ["ok", "InterfaceError"])
+        seen = {}
+
+        @stub
+        def check_new(interp_, args, kwargs):
+            return Obj(model.cls("cutplace.checks.IsUniqueCheck"), {}, label="check")
+
+        @stub
+        def check_init(interp_, args, kwargs):
+            seen["init"] = list(args[1:])
+            if construction == "InterfaceError":
+                interp_.raise_("cutplace.errors.InterfaceError", "broken rule", args[4])
+            args[0].attrs.update({"_description": args[1], "_location": args[4]})
+
+        stubs = {
+            CID + "._create_check_class": stub(lambda i, a, k: ClassRef(model.cls("cutplace.checks.IsUniqueCheck"))),
+            "cutplace.checks.IsUniqueCheck.__new__": check_new, "cutplace.checks.IsUniqueCheck.__init__": check_init,
+        }
+        interp = Interp(model, ch, stubs=stubs)
+        interp.externals["logging.getLogger"] = lambda i, a, k: Obj("logging.Logger", {"debug": stub(lambda i2, a2, k2: None)})
+        world = World(model, interp, ch)
+        cid = _new_cid(interp, model)
+        location = world.location(line=9)
+        cid.attrs["_location"] = location
+        cid.attrs["_field_names"].extend(["a", "b"])
+        earlier = Obj(model.cls("cutplace.checks.IsUniqueCheck"), {"_description": description, "_location": world.location(line=2)})
+        if duplicate and description:
+            cid.attrs["_check_name_to_check_map"][description] = earlier
+            cid.attrs["_check_names"].append(description)
+        items = [description] + [""] * padding + [check_type, "a, b"]
+        try:
+            interp.call_function(model.func(CID + ".add_check_row"), [cid, (items + [""] * 6)[:6]], {}, None)
+            outcome = "accepted"
+        except AbsRaise as raised:
+            outcome = "raise " + exc_name(raised.value)
+            if exc_name(raised.value) == "InterfaceError":
+                error_location = raised.value.attrs.get("_location")
+                if not isinstance(error_location, Obj) or error_location.attrs.get("_line") != 9:
+                    outcome += " without the row's location"
+        key = "description=%r type=%r padding=%d duplicate=%s construction=%s" % (description, check_type, padding, duplicate, construction)
+        accepted = bool(description) and check_type == "IsUnique" and not duplicate and construction == "ok"
+        if not accepted:
+            return (key, outcome, "raise InterfaceError")
+        if outcome != "accepted":
+            return (key, outcome, "accepted")
+        init = seen.get("init")
+        problems = []
+        if not init or init[0] != description or init[1] != "a, b" or init[2] is not cid.attrs["_field_names"] or init[3] is not location:
+            problems.append("constructor received %r" % (init,))
+        if cid.attrs["_check_names"][-1:] != [description] or description not in cid.attrs["_check_name_to_check_map"]:
+            problems.append("check not registered in declaration order")
+        return (key, "; ".join(problems) if problems else "accepted", "accepted")
+
+    decide(ctx, "O9.6c", "add_check_row(description, type, padding, duplicates)", CID + ".add_check_row", cell, min_cells=60)
+
+
 # ------------------------------------------------------------------------------------------------- O9.7
 def rule_is_unique_rule(ctx):
     model = ctx.model
@@ -437,9 +508,11 @@ def rule_located_errors(ctx):
     for node in walk_own(row.node):
         if isinstance(node, ast.Try):
             for handler in node.handlers:
-                handler_text = ast.unparse(handler)
-                if handler.type is not None and "InterfaceError" in ast.unparse(handler.type) and "prepend_message" in handler_text \
-                        and "self._location" in handler_text:
+                handler_class = dotted(handler.type) if handler.type is not None else None
+                resolved = model.resolve_dotted(row.module, handler_class) if handler_class else None
+                # (that this handler gives an unlocated error the row's location is decided by the field-row table O9.6:
+                # its "construction=InterfaceError" cells raise an unlocated error from the constructor)
+                if resolved is not None and getattr(resolved, "qualname", None) in ("cutplace.errors.InterfaceError", "cutplace.errors.CutplaceError"):
                     wrapper_ok = True
                     for inner in node.body:
                         for call in ast.walk(inner):
@@ -498,4 +571,4 @@ def rule_located_errors(ctx):
                              "InterfaceError raised without a location on a path from Cid.read that no handler completes: the rejection does not name the offending row")
 
 
-RULES = [rule_row_dispatch, rule_row_order, rule_field_names, rule_field_row, rule_is_unique_rule, rule_located_errors]
+RULES = [rule_row_dispatch, rule_row_order, rule_field_names, rule_field_row, rule_check_row, rule_is_unique_rule, rule_located_errors]
